@@ -2,6 +2,9 @@
 
 from time import sleep
 
+# What __getitem__ passes to get() to tell a miss from a stored None.
+_MISSING = object()
+
 
 def _ensure_tuple_argument(argument_name, argument_value):
     """
@@ -168,8 +171,9 @@ class RetryingClient:
         self.set(key, value, noreply=True)
 
     def __getitem__(self, key):
-        value = self.get(key)
-        if value is None:
+        # As in Client: a stored value may be None, only a miss is a KeyError.
+        value = self.get(key, default=_MISSING)
+        if value is _MISSING:
             raise KeyError
         return value
 
